@@ -54,7 +54,8 @@ REQUIRED_COUNTERS = ['tables_compared', 'scripted_generate_calls',
                      'tables_reread_after_decoding',
                      'models_reused_across_codes',
                      'models_sharing_label_and_code_objects',
-                     'tables_from_integer_typed_parameters']
+                     'tables_from_integer_typed_parameters',
+                     'tables_on_user_defined_codes']
 
 OPTIONS = 'IXYZ'
 
@@ -537,6 +538,7 @@ def plan(tier, seed):
         for name in names:
             tasks.append({'direction': list(d), 'name': name, 'tier': tier,
                           'seed': seed, 'cost': 10 if name else 16})
+    tasks.append({'kind': 'usercode', 'seed': seed, 'cost': 40})
     if tier == 'thorough':
         tasks.append({'kind': 'contracts', 'cost': 60})
     if tier == 'thorough':
@@ -686,6 +688,64 @@ def run_model(task, out):
                              'PauliErrorModel/deformed-code', rng)
 
 
+def run_user_code(task, out):
+    """Codes written by a user (the documented extension point): the
+    deformation dictionaries are legal single-qubit relabellings written in
+    any key order, or built by inverting another dictionary."""
+    from panqec.codes import Toric2DCode, Planar2DCode
+    from panqec.error_models import PauliErrorModel
+    rng = np.random.default_rng([task['seed'], 709])
+
+    def make(base):
+        class StaggeredCode(base):
+            deformation_names = ['ZXXZ', 'invXY', 'YX', 'cyc']
+
+            def get_deformation(self, location, deformation_name,
+                                **kwargs):
+                on = self.qubit_axis(location) == 'x'
+                if deformation_name == 'ZXXZ':
+                    return {'Z': 'X', 'X': 'Z', 'Y': 'Y'} if on else \
+                        {'Y': 'Y', 'Z': 'Z', 'X': 'X'}
+                if deformation_name == 'invXY':
+                    xy = {'X': 'X', 'Y': 'Z', 'Z': 'Y'}
+                    return {v: k for k, v in xy.items()}
+                if deformation_name == 'YX':
+                    return {'Y': 'X', 'X': 'Y', 'Z': 'Z'} if on else \
+                        {'Z': 'Z', 'Y': 'Y', 'X': 'X'}
+                if deformation_name == 'cyc':
+                    return {'Z': 'X', 'Y': 'Z', 'X': 'Y'}
+                raise ValueError(deformation_name)
+        StaggeredCode.__name__ = 'Staggered' + base.__name__
+        return StaggeredCode
+    for base, size in ((Toric2DCode, (3, 4)), (Planar2DCode, (2, 3))):
+        code = make(base)(*size)
+        cls = base.__name__
+        for name in code.deformation_names:
+            for direction in ((0.2, 0.3, 0.5), (0.0, 0.4, 0.6),
+                              (0.7, 0.2, 0.1), (1.0, 0.0, 0.0)):
+                em = PauliErrorModel(*direction, deformation_name=name)
+                mech = f'PauliErrorModel/user-code/{name}'
+                for p in (0.07, 0.3, 1.0):
+                    desc = {'cls': 'Staggered' + cls, 'size': list(size),
+                            'direction': direction, 'p': p,
+                            'noise_deformation': name, 'kwargs': {}}
+                    out.count('tables_on_user_defined_codes')
+                    try:
+                        G = check_table(out, em, code, cls, size, direction,
+                                        p, name, {}, mech)
+                        if G is None:
+                            continue
+                        check_sampling(out, em, code, G, desc, mech, rng, 2)
+                        check_weights(out, em, code, G, desc, mech)
+                    except Exception as e:
+                        where = panqec_frame(e)
+                        if where is None:
+                            raise
+                        out.violation(f'{mech}/raises-{type(e).__name__}',
+                                      f'{type(e).__name__}: {e} at {where}',
+                                      desc)
+
+
 def run_chi2(task, out):
     """Sanity: the real numpy generator reproduces the stated frequencies
     (6-sigma bound, fixed seeds) -- the scripted result is not an artefact."""
@@ -721,6 +781,9 @@ def run_task(task, out):
     if task.get('kind') == 'contracts':
         from pv.pytest_contracts import run_contract_suite
         run_contract_suite(out, 'probability', 'PauliErrorModel')
+        return
+    if task.get('kind') == 'usercode':
+        run_user_code(task, out)
         return
     if task.get('kind') == 'chi2':
         run_chi2(task, out)
